@@ -264,12 +264,16 @@ Section SendMonitor.
             let m0 := mk_smon (m_hi m) k 0 0 (m_client m) false in
             if k =? nb then
               (* the final block is acknowledged: the transfer is over, nothing more is sent *)
-              mk_sverdict true (is_last && match ems with [] => true | _ => false end
-                                && match ending with EndOk => true | _ => false end) true true
+              let honoured := is_last && match ems with [] => true | _ => false end
+                              && match ending with EndOk => true | _ => false end in
+              (* the cumulative ACK of the final block is an in-window ACK like any other: it must be taken (C08) *)
+              mk_sverdict true honoured honoured true
             else
               let '(m1, v1) := check_burst m0 (k + 1) ems in
               let not_yet := negb is_last || match ending with EndOk => false | _ => true end in
-              vand (vand v1 (mk_sverdict5 true not_yet true true not_yet))
+              (* acknowledgements are cumulative: after ACK(k) transmission resumes at k+1 - at once *)
+              let resumes := has_data ems in
+              vand (vand v1 (mk_sverdict5 true not_yet resumes true not_yet))
                    (smon_run m1 evs' bs' ending)
           else
             (* no progress: a transmission needs the timeout; a stale / duplicate / foreign ACK must not end the transfer *)
